@@ -187,8 +187,11 @@ package pubsub
 //@   sets staleResult = result
 //@   sets staleArg = timestampMilli
 
+// on the receive path the dedup ring is consulted (and thereby written) only for a message whose
+// signature has been verified: a forged frame must not be able to burn a genuine message id
 //@ func (*msgIdDedup).seen
 //@   trusted
+//@   requires [dedup_only_after_signature] sigVerified
 //@   modifies object d kinds !string !iface
 //@   sets dupResult = result
 //@   sets dupArg = id
@@ -231,7 +234,7 @@ package pubsub
 // carries a valid signature under that same identity, and was not seen before.
 //@ func (*service).receivePublish
 //@   requires s != nil && p != nil && s.dedup != nil
-//@   requires !delivered
+//@   requires !delivered && !sigVerified
 //@   ensures [delivered_matched]   delivered ==> len(matchRes) > 0 && dlvPatterns == matchRes && matchTopic == old(p.Topic) && matchTrie == old(s.localTrie[p.SpaceId]) && dlvSpace == old(p.SpaceId) && dlvTopic == old(p.Topic)
 //@   ensures [delivered_identity]  delivered ==> idOfMsg == p && dlvIdentity == idOfKey && dlvIdentity != nil
 //@   ensures [delivered_member]    delivered && old(s.deps.Membership) != nil ==> memChecked && memSpace == old(p.SpaceId) && memIdentity == dlvIdentity
@@ -345,7 +348,7 @@ package pubsub
 // well-formed wildcard-free topic
 //@ func (*service).handlePublish
 //@   requires s != nil && p != nil && s.pool != nil && s.rate != nil && s.dedup != nil
-//@   requires !reachedRelay && !reachedReceive && !fanned && !forwarded && !delivered
+//@   requires !reachedRelay && !reachedReceive && !fanned && !forwarded && !delivered && !sigVerified
 //@   ensures [publish_gate] reachedRelay || reachedReceive ==> len(old(p.MsgId)) == 16 && len(old(p.Payload)) <= old(s.cfg.MaxPayloadSize) && wfTopic(old(p.Topic))
 //@   ensures [role_split]   (reachedRelay ==> old(s.deps.Relay) != nil) && (reachedReceive ==> old(s.deps.Relay) == nil)
 
@@ -371,6 +374,8 @@ package pubsub
 // withdrawing a pattern reports whether the stream had it, and afterwards the stream does not
 //@ func (*service).removeStreamPattern
 //@   requires s != nil && strm != nil && si != nil
+//@   modifies fields streamInterest.total trieLevel.pwc trieLevel.fwc trieLevel.nodes trieNode.next trieNode.pattern trieNode.refs patternTrie.size
+//@   modifies kinds map:map[string]struct{} map:map[string]map[string]struct{} map:map[string]*pubsub.trieNode
 //@   ensures [reports_presence] result <==> old((spaceId in strm.bySpace) && (pattern in strm.bySpace[spaceId]))
 //@   ensures [withdrawn] !((spaceId in old(strm.bySpace)) && (pattern in old(strm.bySpace)[spaceId]))
 
@@ -394,8 +399,20 @@ package pubsub
 //@ func CtxStreamId
 //@   pure
 //@ package github.com/anyproto/any-sync/commonspace/pubsub
+//@ ghost tagsFailed Bool stable
+//@ ghost streamPruned Bool stable
+//@ ghost streamPrunedId Int stable
+//@ ghost spacePruned Bool stable
+//@ ghost spacePrunedId Str stable
 //@ func iface streampool.StreamPool.AddTagsCtx
 //@   modifies nothing
+//@   sets tagsFailed = result != nil
+//@ func (*service).pruneStream
+//@   sets streamPruned = true
+//@   sets streamPrunedId = streamId
+//@ func (*service).pruneSpace
+//@   sets spacePruned = true
+//@   sets spacePrunedId = spaceId
 //@ func (*service).sendStatus
 //@   trusted
 //@   modifies nothing
@@ -411,6 +428,9 @@ package pubsub
 //@   ensures [subscribe_gate_space]    addCnt > old(addCnt) ==> old(sub.SpaceId) != "" && (forall j int :: 0 <= j && j < len(old(sub.SpaceId)) ==> old(sub.SpaceId)[j] != 47)
 //@   ensures [subscribe_gate_node]     addCnt > old(addCnt) && old(s.deps.Relay) != nil ==> old(s.deps.Relay).IsResponsible(old(sub.SpaceId))
 //@   ensures [subscribe_gate_patterns] addCnt > old(addCnt) ==> (forall i int :: 0 <= i && i < len(old(sub.Topics)) ==> wfPat(old(sub.Topics[i])))
+//@   requires !tagsFailed && !streamPruned && !spacePruned
+//@   ensures [rollback_prunes_stream_record] tagsFailed ==> streamPruned && streamPrunedId == streampool.CtxStreamId(ctx)
+//@   ensures [rollback_prunes_space_record] tagsFailed ==> spacePruned && spacePrunedId == old(sub.SpaceId)
 //@   ensures [subscribe_gate_member]   addCnt > old(addCnt) && old(s.deps.Membership) != nil ==> memChecked && memSpace == old(sub.SpaceId) && memIdentity == peer.CtxPubKey(ctx)
 //@   loop 0:
 //@     invariant -1 <= rangeindex && rangeindex < len(sub.Topics) && addCnt == old(addCnt)
@@ -418,7 +438,8 @@ package pubsub
 //@   loop 1:
 //@     invariant -1 <= rangeindex && rangeindex < len(sub.Topics) && sub.Topics == old(sub.Topics)
 //@     invariant si != nil && strm != nil && spacePatterns != nil
+//@     invariant sub.SpaceId == old(sub.SpaceId) && (cap(accepted) == 0 || fresh(accepted))
 //@   loop 2:
-//@     invariant -1 <= rangeindex && rangeindex < len(accepted) && len(tags) == len(accepted)
+//@     invariant -1 <= rangeindex && rangeindex < len(accepted) && len(tags) == len(accepted) && sub.SpaceId == old(sub.SpaceId)
 //@   loop 3:
-//@     invariant -1 <= rangeindex && rangeindex < len(accepted) && si != nil && strm != nil
+//@     invariant -1 <= rangeindex && rangeindex < len(accepted) && si != nil && strm != nil && sub.SpaceId == old(sub.SpaceId)
